@@ -7,8 +7,13 @@ import random as pyrandom
 
 from common import c_bool, c_list, c_nat, c_opt, c_str, c_Z
 
+import networkx as nx
+
+from golem.core.adapter import DirectAdapter, IdentityAdapter
+from golem.core.adapter.nx_adapter import DumbNetworkxAdapter
 from golem.core.dag.graph_verifier import GraphVerifier
 from golem.core.dag.verification_rules import DEFAULT_DAG_RULES
+from golem.core.optimisers.graph import OptGraph, OptNode
 from golem.core.optimisers.initial_graphs_generator import InitialPopulationGenerator
 from golem.core.optimisers.opt_graph_builder import OptGraphBuilder, merge_opt_graph_builders
 from golem.core.optimisers.opt_node_factory import DefaultOptNodeFactory
@@ -145,11 +150,54 @@ def c_ostep(o):
                                          c_bool(o['others']))
 
 
-class Sim:
-    """k real OptGraphBuilder objects driven by JSON calls, observed after every call"""
+class DomNode(OptNode):
+    """domain node class for DirectAdapter"""
 
-    def __init__(self, k):
-        self.objs = [OptGraphBuilder() for _ in range(k)]
+
+class DomGraph(OptGraph):
+    """domain graph class for DirectAdapter"""
+
+
+ADAPTERS = ['none', 'identity', 'direct', 'direct_dom', 'dumb_nx']
+
+
+def make_adapter(kind):
+    """graph adapters a builder / GraphGenerationParams can be configured with"""
+    if kind in (None, 'none'):
+        return None
+    if kind == 'identity':
+        return IdentityAdapter()
+    if kind == 'direct':
+        return DirectAdapter()
+    if kind == 'direct_dom':
+        return DirectAdapter(DomGraph, DomNode)
+    if kind == 'dumb_nx':
+        return DumbNetworkxAdapter()
+    raise ValueError(kind)
+
+
+def built_nodes(g):
+    """the node objects a built structure is made of, in listing order (OptGraph-like: .nodes;
+    networkx graph of DumbNetworkxAdapter: the OptNode stored with every networkx node)"""
+    if isinstance(g, nx.DiGraph):
+        return [data['data'] for _, data in g.nodes(data=True)]
+    return list(g.nodes)
+
+
+def nx_structure_ok(g, nodes):
+    """a networkx result mirrors the parent lists of the node objects it carries"""
+    if not isinstance(g, nx.DiGraph):
+        return True
+    return (list(g.nodes) == [n.uid for n in nodes] and
+            all(list(g.predecessors(n.uid)) == [p.uid for p in n.nodes_from] for n in nodes))
+
+
+class Sim:
+    """k real OptGraphBuilder objects (all with the same kind of graph adapter) driven by JSON calls,
+    observed after every call"""
+
+    def __init__(self, k, adapter='none'):
+        self.objs = [OptGraphBuilder(make_adapter(adapter)) for _ in range(k)]
 
     def state(self):
         order = reach([h for b in self.objs for h in b.heads])
@@ -215,11 +263,28 @@ class Sim:
             if g1 is None or g2 is None:
                 assert g1 is None and g2 is None
                 return ['ORNone']
-            i1 = {id(n) for n in g1.nodes}
-            i2 = {id(n) for n in g2.nodes}
+            n1, n2 = built_nodes(g1), built_nodes(g2)
+            c1, c2 = canon_nodes(n1), canon_nodes(n2)
+            i1 = {id(n) for n in n1}
+            i2 = {id(n) for n in n2}
             mine = self.all_ids()
-            return ['ORGraph', canon_nodes(g1.nodes), canon_nodes(g2.nodes), bool(g1 == g2),
-                    g1.descriptive_id == g2.descriptive_id, not (i1 & i2), not ((i1 | i2) & mine)]
+            if isinstance(g1, nx.DiGraph):      # no structural == on networkx graphs: compare the structures
+                eq = did = (c1 == c2) and nx_structure_ok(g1, n1) and nx_structure_ok(g2, n2)
+            else:
+                eq, did = bool(g1 == g2), g1.descriptive_id == g2.descriptive_id
+            fresh = not ((i1 | i2) & mine)
+            # independent: edit the first build, then neither the second build, nor a third build, nor
+            # any builder may have changed
+            snap = self.snapshots()
+            n1[0].content['name'] = 'edited!'
+            if isinstance(g1, nx.DiGraph):
+                g1.remove_node(n1[-1].uid)
+            elif len(n1) > 1:
+                g1.delete_node(n1[-1])
+            g3 = b.build()
+            independent = (self.snapshots() == snap and canon_nodes(built_nodes(g2)) == c2 and
+                           g3 is not None and canon_nodes(built_nodes(g3)) == c2)
+            return ['ORGraph', c1, c2, eq, did, not (i1 & i2), fresh and independent]
         else:
             raise ValueError(k)
         # chained-call contract: the mutating methods return the builder itself
@@ -308,11 +373,12 @@ def random_call(r, nb):
     return [k, b]
 
 
-def eval_builder(ctx, group, items, canary=False):
-    """items: list of (k, calls).  Runs the real builder, evaluates agree/holds_b in Coq."""
+def eval_builder(ctx, group, items, canary=False, adapter='none'):
+    """items: list of (k, calls).  Runs the real builder (configured with the given kind of graph
+    adapter), evaluates agree/holds_b in Coq."""
     cases, meta = [], []
     for k, calls in items:
-        sim = Sim(k)
+        sim = Sim(k, adapter)
         obs = sim.run(calls)
         cases.append(c_builder_case(k, calls, obs))
         meta.append((k, calls, obs, getattr(sim, 'last_exception', None)))
@@ -342,10 +408,10 @@ def eval_builder(ctx, group, items, canary=False):
                 ctx.canaries_caught += 1
         res = res[:-n_can]
     for (k, calls, obs, exc), (ag, ho, uo) in zip(meta, res):
-        case = {'kind': 'builder', 'k': k, 'calls': calls}
+        case = {'kind': 'builder', 'k': k, 'calls': calls, 'adapter': adapter}
         kinds = sorted({c[0] for c in calls})
         nontrivial = any(len(o['state'][0]) >= 2 for o in obs)
-        ctx.count(group, key=(k, repr(calls)), nontrivial=nontrivial, length=len(calls),
+        ctx.count(group, key=(k, repr(calls), adapter), nontrivial=nontrivial, length=len(calls), adapter=adapter,
                   max_nodes=min(12, max([len(o['state'][0]) for o in obs] + [0])),
                   has_merge='Merge' in kinds, has_skip='AddSkip' in kinds)
         if not ho:
@@ -391,6 +457,16 @@ def run_builder(ctx):
     meta = eval_builder(ctx, 'builder-random', items)
     for m in meta[:2]:
         ctx.sample({'kind': 'builder', 'k': m[0], 'calls': m[1], 'observed_last': m[2][-1]})
+    # builders configured with a graph adapter: build() = adapter.restore(OptGraph(copies)); the same
+    # model (canonical form of the node objects the result is made of), the same clauses
+    for adapter in ADAPTERS[1:]:
+        items = [(2, list(seq) + EPILOGUE) for n in (1, 2) for seq in itertools.product(alpha[:ctx.pick(16, 40)], repeat=n)]
+        for _ in range(ctx.budget(60, 1000)):
+            nb = r.choice([1, 2, 3])
+            calls = [random_call(r, nb) for _ in range(r.randrange(4, 12))]
+            items.append((nb, calls + [['Build', r.randrange(nb)], ['Build', nb]]))
+        eval_builder(ctx, 'builder-adapter', items, adapter=adapter)
+    ctx.set_exhaustive('builder-adapter', False)
     return n_exh
 
 
@@ -650,7 +726,8 @@ def observe_population(case):
                 raise
             generated.append(to_tree(g, types))
             return g
-    gp = GraphGenerationParams(rules_for_constraint=make_rules(v, types), node_factory=nf)
+    gp = GraphGenerationParams(adapter=make_adapter(case.get('adapter')), rules_for_constraint=make_rules(v, types),
+                               node_factory=nf)
     # 'gen_v': the factory verifies with another rule set than the population generator, so that
     # the generator's own verifier call matters
     gen_verifier = GraphVerifier(make_rules(case['gen_v'], types)) if case.get('gen_v') else gp.verifier
@@ -793,7 +870,8 @@ def observe_scripted(case):
     rr = pyrandom.Random(seed)
     temps = _templates()
     script = [rr.randrange(len(temps)) for _ in range(length)]
-    gp = GraphGenerationParams(rules_for_constraint=list(DEFAULT_DAG_RULES), available_node_types=TYPES)
+    gp = GraphGenerationParams(adapter=make_adapter(case.get('adapter')), rules_for_constraint=list(DEFAULT_DAG_RULES),
+                               available_node_types=TYPES)
     generated = []
     calls = [0]
 
@@ -810,10 +888,14 @@ def observe_scripted(case):
         generated.append([gp.verifier(g) is True, sinks_of(g)])
         return g
     gen = InitialPopulationGenerator(ps, gp, GraphRequirements()).with_custom_generation_function(generation_function)
-    pop = list(gen())
-    return {'generated': generated, 'result': [sinks_of(g) for g in pop],
-            'accepted': [gp.verifier(g) is True for g in pop],
-            'pairs': [bool(pop[i] == pop[j]) for i in range(len(pop)) for j in range(i + 1, len(pop))]}
+    out = []
+    for _ in range(case.get('calls', 1)):         # repeated calls of one generator object continue the stream
+        del generated[:]
+        pop = list(gen())
+        out.append({'generated': list(generated), 'result': [sinks_of(g) for g in pop],
+                    'accepted': [gp.verifier(g) is True for g in pop],
+                    'pairs': [bool(pop[i] == pop[j]) for i in range(len(pop)) for j in range(i + 1, len(pop))]})
+    return out
 
 
 def c_forest(f):
@@ -833,9 +915,9 @@ FN_S = 'fun c => match c with (ps, o) => [s_agree ps o; s_holds ps o] end'
 def eval_scripted(ctx, group, cases_in, canary=False):
     cases, meta = [], []
     for case in cases_in:
-        o = observe_scripted(case)
-        cases.append('(%s, %s)' % (c_nat(case['pop_size']), c_sobs(o)))
-        meta.append((case, o))
+        for o in observe_scripted(case):
+            cases.append('(%s, %s)' % (c_nat(case['pop_size']), c_sobs(o)))
+            meta.append((case, o))
     n_can = 0
     if canary:
         # hand-written: chain a->b and fork a->b, a->b' are == (same set of sink ids) yet both returned
@@ -855,7 +937,8 @@ def eval_scripted(ctx, group, cases_in, canary=False):
         c = dict(case, kind='scripted')
         n = len(o['result'])
         multi = sum(1 for f in o['result'] if len(f) > 1)
-        ctx.count(group, key=tuple(sorted(case.items())), nontrivial=n >= 2, pop_size=case['pop_size'], returned=n,
+        ctx.count(group, key=tuple(sorted(case.items())) + (len(o['generated']),), nontrivial=n >= 2,
+                  pop_size=case['pop_size'], returned=n, adapter=case.get('adapter', 'none'),
                   multi_sink_members=min(multi, 4), generated=min(len(o['generated']), 1000) // 10 * 10,
                   short=n < case['pop_size'])
         if not ho:
@@ -863,6 +946,71 @@ def eval_scripted(ctx, group, cases_in, canary=False):
                                   'unverified graphs or too many graphs')
         if not ag:
             ctx.disagree(group, c, 'model and InitialPopulationGenerator differ (scripted graph stream)')
+    return meta
+
+
+# ---- populations from given initial graphs, under every adapter ---------------------------------
+def observe_initial(case):
+    kind, ps, seed, n_given, ncalls = (case[k] for k in ('adapter', 'pop_size', 'seed', 'n_given', 'calls'))
+    rr = pyrandom.Random(seed)
+    temps = _templates()
+
+    def to_tree_from(n, depth=0):
+        assert depth < 32
+        return [TYPES.index(n.content['name']), [to_tree_from(q, depth + 1) for q in n.nodes_from]]
+
+    def sinks_of(g):
+        return [to_tree_from(n) for n in g.root_nodes()]
+    adapter = make_adapter(kind)
+    gp = GraphGenerationParams(adapter=adapter, rules_for_constraint=list(DEFAULT_DAG_RULES), available_node_types=TYPES)
+    opt_graphs = [OptGraph(temps[rr.randrange(len(temps))]()) for _ in range(n_given)]
+    given = [sinks_of(g) for g in opt_graphs]
+    # the user hands over DOMAIN graphs: the adapter's image of the optimisation graphs
+    domain = [gp.adapter.restore(g) for g in opt_graphs]
+    gen = InitialPopulationGenerator(ps, gp, GraphRequirements()).with_initial_graphs(domain)
+    results = []
+    for _ in range(ncalls):
+        pop = list(gen())
+        assert all(isinstance(g, OptGraph) for g in pop), [type(g) for g in pop]
+        results.append([sinks_of(g) for g in pop])
+    return {'given': given, 'results': results}
+
+
+FN_E = 'fun c => match c with (ps, o) => [e_agree ps o; e_holds ps o] end'
+
+
+def eval_initial(ctx, group, cases_in, canary=False):
+    cases, meta = [], []
+
+    def c_case(ps, o):
+        return '(%s, (mkEObs %s %s))' % (c_nat(ps), c_list([c_forest(f) for f in o['given']], 'forest'),
+                                        c_list([c_list([c_forest(f) for f in r], 'forest') for r in o['results']],
+                                               '(list forest)'))
+    for case in cases_in:
+        o = observe_initial(case)
+        cases.append(c_case(case['pop_size'], o))
+        meta.append((case, o))
+    n_can = 0
+    if canary:
+        g = [[0, []]]
+        cases.append(c_case(1, {'given': [g, g], 'results': [[g, g], [g]]}))     # first call returns too many
+        n_can = 1
+        ctx.canaries += 1
+    res = ctx.coq_cases(group, REQ_F, FN_E, cases, 2, shard=100)
+    if n_can:
+        for ag, ho in res[-n_can:]:
+            if not ag and not ho:
+                ctx.canaries_caught += 1
+        res = res[:-n_can]
+    for (case, o), (ag, ho) in zip(meta, res):
+        c = dict(case, kind='initial')
+        rel = 'more' if case['n_given'] > case['pop_size'] else ('equal' if case['n_given'] == case['pop_size'] else 'fewer')
+        ctx.count(group, key=tuple(sorted(case.items())), nontrivial=case['n_given'] >= 2, adapter=case['adapter'],
+                  given_vs_pop_size=rel, calls=case['calls'])
+        if not ho:
+            ctx.violate(group, c, 'InitialPopulationGenerator with initial graphs returned more graphs than requested')
+        if not ag:
+            ctx.disagree(group, c, 'model and InitialPopulationGenerator differ (given initial graphs)')
     return meta
 
 
@@ -915,6 +1063,9 @@ def run_generators(ctx):
             cases[-1]['p_none'] = 0.3
         if r.random() < 0.3:
             cases[-1]['gen_v'] = ['VAll']
+        if r.random() < 0.4:     # GraphGenerationParams with a non-identity adapter (custom rules see domain graphs)
+            cases[-1]['adapter'] = r.choice(['identity', 'direct', 'direct_dom'] +
+                                            (['dumb_nx'] if cases[-1]['v'][0] == 'VAll' and 'gen_v' not in cases[-1] else []))
     # more graphs requested than exist: the attempt limit ends the loop with a short population
     for nt, ps in [(1, 2), (2, 3), (3, 5)][:ctx.pick(2, 3)]:
         cases.append({'md': 1, 'mn': 1, 'mx': 1, 'nt': nt, 'v': ['VAll'], 'seed': r.randrange(10 ** 6), 'pop_size': ps})
@@ -927,11 +1078,19 @@ def run_generators(ctx):
     for _ in range(ctx.budget(120, 1500)):
         length = r.choice([4, 8, 16, 30])
         scripted.append({'pop_size': r.randint(1, max(1, min(6, length // 3))), 'seed': r.randrange(10 ** 6),
-                         'length': length})
+                         'length': length, 'adapter': r.choice(ADAPTERS), 'calls': r.choice([1, 1, 2])})
     for ps, length in [(12, 30), (4, 4), (8, 16)]:                    # more requested than distinct graphs exist
         scripted.append({'pop_size': ps, 'seed': r.randrange(10 ** 6), 'length': length})
     eval_scripted(ctx, 'population-scripted', scripted, canary=True)
     ctx.set_exhaustive('population-scripted', False)
+    # with_initial_graphs: more / equal / fewer graphs than pop_size, every adapter, one to three calls
+    initial = [{'adapter': a, 'pop_size': ps, 'n_given': n, 'calls': k, 'seed': r.randrange(10 ** 6)}
+               for a in ADAPTERS for ps in (0, 1, 2, 4) for n in (1, 2, 3, 4, 6) for k in (1, 3)]
+    for _ in range(ctx.budget(0, 600)):
+        initial.append({'adapter': r.choice(ADAPTERS), 'pop_size': r.randrange(0, 7), 'n_given': r.randrange(1, 9),
+                        'calls': r.choice([1, 2, 3]), 'seed': r.randrange(10 ** 6)})
+    eval_initial(ctx, 'population-initial-graphs', initial, canary=True)
+    ctx.set_exhaustive('population-initial-graphs', False)
     for case, o in [m for m in meta if m[1]['result'] and len(m[1]['result']) >= 3][:1]:
         ctx.sample({'kind': 'population', 'case': case, 'generated': len(o['generated']),
                     'returned': o['result'][:3]})
@@ -970,14 +1129,19 @@ def replay(ctx, payload):
         case = v.get('case') if isinstance(v, dict) else None
         cases = [case] if case else []
     strip = lambda c: {k: x for k, x in c.items() if k not in ('kind', 'name')}
-    b = [(c['k'], c['calls']) for c in cases if c.get('kind') == 'builder']
+    b = [(c['k'], c['calls'], c.get('adapter', 'none')) for c in cases if c.get('kind') == 'builder']
     f = [strip(c) for c in cases if c.get('kind') == 'factory']
     p = [strip(c) for c in cases if c.get('kind') == 'population']
     sc = [strip(c) for c in cases if c.get('kind') == 'scripted']
+    ini = [strip(c) for c in cases if c.get('kind') == 'initial']
+    if ini:
+        eval_initial(ctx, 'replay', ini)
     if sc:
         eval_scripted(ctx, 'replay', sc)
-    if b:
-        eval_builder(ctx, 'replay', b)
+    for adapter in ADAPTERS:
+        items = [(k, calls) for k, calls, a in b if a == adapter]
+        if items:
+            eval_builder(ctx, 'replay', items, adapter=adapter)
     if f:
         eval_factory(ctx, 'replay', f)
     if p:
